@@ -41,6 +41,8 @@ def fmt_tok(t):
 
 def run(ctx):
     F = ctx.F
+    from rules import deadrules as _dr
+    _dr.rule_parsed_fields_used(ctx, "R05.7", ("lef21::read::",), 100)
     tier = ctx.tier
     ctx.rule("R05.1", "every (non-Unsupported) field of every LEF structure is read by the writer routine for its type")
     ctx.rule("R05.2", "every token sequence a writer routine can emit (all optional-field subsets, loops 0/1 times) is accepted, token class by token class, by an abstract run of the parser routine for the same type; tokens are cut by a model of the LEF lexer (whitespace-delimited, ';' special only at token start)")
